@@ -726,6 +726,94 @@ def check_contextual_constants(run, ix, rule='X-R14'):
 
 
 
+# --------------------------------------------------------------------------- X-R15
+def check_foreign_constants_in_operators(run, ix, rule='X-R15'):
+    """X-R15 (fourth C38 hunt and third C17 hunt, independently; repair 0a95f78).  X-R13 covers the constructor, convert
+    and the interval context.  The operator layer reads `<operand>._mpf_` on its own: the binary-operator template (a
+    string that is exec'd, parsed here), `_mpf._cmp`, `_mpf.mpf_convert_rhs` and `fsum`.  For a lazy constant of another
+    context that is its value at the OTHER context's precision (A.mpf(1) + mp.pi at A.prec = 200 had an error of 2^-52
+    and followed mp.prec).  Decided: in each of these, every read `<v>._mpf_` of an operand <v> (not the object itself)
+    is (a) preceded in the function by a test `isinstance(<v>, _constant)` whose branch returns, or (b) made under a test
+    containing `not isinstance(<v>, _constant)`, or (c) followed in the same block by a test `isinstance(<v>, _constant)`
+    that reassigns what the read was stored in."""
+    m = ix.module(CTXPY)
+    units = []
+    for qn in ('_mpf.mpf_convert_rhs', '_mpf._cmp', 'PythonMPContext.fsum'):
+        f = ix.func(CTXPY, qn)
+        units.append((qn, f.node, f.params[0] if f.params else None))
+    tmpl = None
+    for name, value, st, g in m.toplevel_assigns:
+        if name == 'mpf_binary_op' and isinstance(value, ast.Constant) and isinstance(value.value, str):
+            tmpl = value.value
+    if tmpl is None:
+        raise AnalysisError('mpf_binary_op template not found')
+    src = tmpl.replace('%NAME%', 'op_')
+    for k in ('%WITH_MPF%', '%WITH_INT%', '%WITH_MPC%'):
+        src = src.replace(k, 'pass')
+    tree = ast.parse(src)
+    for n_ in ast.walk(tree):
+        for c_ in ast.iter_child_nodes(n_):
+            c_._parent = n_
+    units.append(('mpf_binary_op (template)', tree.body[0], 'self'))
+    total = 0
+    for qn, node, me in units:
+        reads = [a for a in ast.walk(node) if isinstance(a, ast.Attribute) and a.attr == '_mpf_' and
+                 isinstance(a.ctx, ast.Load) and isinstance(a.value, ast.Name) and a.value.id not in (me, 'self', 's', 'cls')]
+        for a in reads:
+            v = a.value.id
+            pat = 'isinstance(%s,_constant)' % v
+            # results of a conversion (`t = ctx.convert(x)` then t._mpf_) are numbers of this context
+            conv = any(isinstance(x, ast.Assign) and any(isinstance(t, ast.Name) and t.id == v for t in x.targets) and
+                       isinstance(x.value, ast.Call) and norm(x.value.func).split('.')[-1] in ('convert', 'mpf')
+                       and x.lineno < a.lineno for x in ast.walk(node))
+            ok = conv
+            why = 'result of a conversion' if conv else ''
+            # (b)
+            p_ = a
+            while not ok and p_ is not node:
+                par = getattr(p_, '_parent', None)
+                if par is None:
+                    break
+                if isinstance(par, ast.If) and any(p_ is b or any(p_ is y for y in ast.walk(b)) for b in par.body) and \
+                        ('not' + pat) in norm(par.test).replace(' ', ''):
+                    ok, why = True, 'read under `not isinstance(%s, _constant)`' % v
+                p_ = par
+            # (a)
+            if not ok:
+                for i in ast.walk(node):
+                    if isinstance(i, ast.If) and i.lineno < a.lineno and pat in norm(i.test).replace(' ', '') and \
+                            ('not' + pat) not in norm(i.test).replace(' ', '') and i.body and isinstance(i.body[-1], ast.Return):
+                        ok, why = True, 'constants leave before (line %d)' % i.lineno
+            # (c)
+            if not ok:
+                st = a
+                while not isinstance(st, ast.stmt):
+                    st = st._parent
+                blk = None
+                for fld in ('body', 'orelse'):
+                    b_ = getattr(st._parent, fld, None)
+                    if isinstance(b_, list) and any(st is y for y in b_):
+                        blk = b_
+                if blk is not None and isinstance(st, ast.Assign):
+                    tgt = norm(st.targets[0])
+                    for nxt in blk[[i for i, y in enumerate(blk) if y is st][0] + 1:]:
+                        if isinstance(nxt, ast.If) and pat in norm(nxt.test).replace(' ', '') and \
+                                any(isinstance(y, ast.Assign) and norm(y.targets[0]) == tgt for y in nxt.body):
+                            ok, why = True, 'corrected right after (line %d)' % nxt.lineno
+            total += 1
+            if ok:
+                run.ok(rule, '%s: `%s._mpf_` -- %s' % (qn, v, why))
+            else:
+                run.fail(F(rule, CTXPY, qn.split(' ')[0], '%s._mpf_' % v,
+                           'the operand\'s `_mpf_` is used whatever the operand is: for a lazy constant of ANOTHER context '
+                           'that is its value at that context\'s precision and rounding -- with A = mp.clone(), A.prec = '
+                           '200, `A.mpf(1) + mp.pi` has an error of 2^-52, changes with mp.prec, and `A.mpf(mp.pi) == mp.pi` '
+                           'is False', line=getattr(a, 'lineno', None)))
+    if total < 4:
+        raise AnalysisError('X-R15: only %d operand reads found' % total)
+
+
+
 # --------------------------------------------------------------------------- X-R12
 def check_matrix_entry_conversion(run, ix):
     """X-R12.  The numbers a matrix holds belong to the matrix's context: an mpf computes with the precision of ITS
@@ -1144,6 +1232,8 @@ def run(run, ix, tier):
     check_foreign_constants(run, ix)
     run.rule('X-R14', floor=4, desc='a constant defined by its context\'s precision (eps) keeps its value in another context')
     check_contextual_constants(run, ix)
+    run.rule('X-R15', floor=4, desc='the operator layer does not read the _mpf_ of a constant of another context')
+    check_foreign_constants_in_operators(run, ix)
     run.rule('X-R12', floor=3, desc='matrix entries taken over without conversion come from a matrix of the same context')
     check_matrix_entry_conversion(run, ix)
     run.stats.update({'mutated_context_attributes': n2, 'allocation_sites': n4,
